@@ -577,6 +577,19 @@ func holdsIn(fs []Fact, pred func(Fact) bool, depth int, busy map[*ssa.Phi]bool)
 			if IsNilConst(e) != wantNil && (IsNilConst(e) || (PathQuery{}).nonNilValue(e, 0)) {
 				continue // this operand cannot have the tested nil-ness
 			}
+			if _, isMI := e.(*ssa.MakeInterface); isMI && wantNil {
+				continue // an interface made from a value is not the nil interface
+			}
+			// … nor can it when the edge it arrives over has tested it the other way
+			ef := FactsAtEdge(phi.Block().Preds[i], phi.Block())
+			if HasFact(ef, func(x Fact) bool {
+				if wantNil {
+					return x.SaysNotNil(e)
+				}
+				return x.SaysNil(e)
+			}) {
+				continue
+			}
 			n++
 			if !holdsIn(FactsAtEdge(phi.Block().Preds[i], phi.Block()), pred, depth+1, busy) {
 				all = false
